@@ -684,6 +684,26 @@ func hevcCheck(c *vf.Ctx, devs []hdev) {
 				chk("DecConfRec", "parameter sets verbatim", "differs", "verbatim")
 			}
 		}
+		// the serialised record: Size() bytes, and the record read back from them carries the same values
+		var rb bytes.Buffer
+		if err := cr.Encode(&rb); err != nil {
+			c.Fail("hevc DecConfRec encode error", "a configuration record can be written", det(err.Error()))
+			return
+		}
+		chk("DecConfRec", "encoded length equals Size()", fmt.Sprint(rb.Len()), fmt.Sprint(cr.Size()))
+		dr, err := hevc.DecodeHEVCDecConfRec(rb.Bytes())
+		if err != nil {
+			c.Fail("hevc DecConfRec decode error", "a written configuration record can be read back", det(err.Error()))
+			return
+		}
+		chk("DecConfRec", "serialised record: profile fields", fmt.Sprint(dr.GeneralProfileSpace, dr.GeneralTierFlag, dr.GeneralProfileIDC, dr.GeneralProfileCompatibilityFlags, dr.GeneralConstraintIndicatorFlags, dr.GeneralLevelIDC, dr.ChromaFormatIDC, dr.BitDepthLumaMinus8, dr.BitDepthChromaMinus8),
+			fmt.Sprint(s.General.Space, s.General.Tier, s.General.IDC, s.General.Compat, s.General.Constraint, s.General.Level, s.ChromaFormatIDC, s.BitDepthLumaM8, s.BitDepthChromaM8))
+		for typ, wantN := range map[hevc.NaluType][]byte{hevc.NALU_VPS: vps, hevc.NALU_SPS: spsNAL, hevc.NALU_PPS: ppsNAL} {
+			got := dr.GetNalusForType(typ)
+			if len(got) != 1 || !bytes.Equal(got[0], wantN) {
+				chk("DecConfRec", "serialised record: parameter sets verbatim", "differs", "verbatim")
+			}
+		}
 		// codec string per ISO/IEC 14496-15 E.3
 		sp := []string{"", "A", "B", "C"}[s.General.Space]
 		tier := "L"
